@@ -375,6 +375,10 @@ pub fn c10(thorough: bool, replay: Option<String>) -> i32 {
             Death::Crash(i, s) => (i, "abort", s),
         };
         let df = &defects[i as usize];
+        if !crate::par::death_reproduces("C10", tier, "defects", i) {
+            st.count("worker-death-not-reproduced(machinery, no verdict)", 1);
+            continue;
+        }
         st.violation(&format!("{}/{}", kind, df.class), format!("compiler {} on {} ({}) {}", kind, df.text, df.class, status), df.text.len(), json!({"kind": "c10", "text": df.text, "twin": df.twin, "sigil": df.sigil}));
     }
     rep.add_sub("defects", &format!("{} defective programs (see rule)", n), n, true, capped, st);
